@@ -68,6 +68,14 @@ def bkStep (s : BkSt) (line : String) : BkSt × String :=
     (s, match s.cur.bind (bkAt (parseBPath path)) with
         | some b => (match getAt Bkt.fuel (unhex k) b with | some v => "v:" ++ valStr v | none => "nil")
         | none => "none")
+  | ["mv", src, k, dst] =>
+    match s.cur with
+    | none => (s, "none")
+    | some b =>
+      let sp' := match apiMoveBucket s.spec (topName :: parseBPath src) (unhex k) (topName :: parseBPath dst) with | .ok v => v | .error _ => s.spec
+      match moveAt Bkt.fuel (parseBPath src) (unhex k) (parseBPath dst) b with
+      | some b' => ({ s with cur := some b', spec := sp' }, "ok")
+      | none => ({ s with spec := sp' }, "refused")
   | ["dump"] => (s, match s.cur with | some b => showBk b | none => "none")
   | ["agree"] => (s, match s.cur with | some b => (agree b s.spec).trimAscii.toString ++ s!" w={decide (WF Bkt.fuel s.orig b)}" | none => "none")
   | ["fullok"] => (s, match s.cur with | some b => s!"o={origShapeOk Bkt.fuel (full s.orig Bkt.fuel [] b)}" | none => "none")
